@@ -343,7 +343,8 @@ fn run() {
             c05::run(&mut report, replay.as_deref());
             let rule = report.rule.clone();
             ucmd::run(&mut report);
-            report.rule = format!("{rule} + user commands (certify, trust, ...) on disk: the written records certify nothing beyond the store before plus the entry asked for");
+            c17::run(&mut report);
+            report.rule = format!("{rule} + user commands (certify, trust, ...) on disk: the written records certify nothing beyond the store before plus the entry asked for + suggestions: the criteria printed for a failing package are the set computed as missing");
         }
         "C01" | "C02" | "C03" | "C04" | "C06" | "C12" => {
             core::run(&mut report, replay.as_deref());
